@@ -15,6 +15,7 @@ CONSTANTS
   RetireById = TRUE
   RelOnRefusal = TRUE
   CtxSelect = TRUE
+  CapRegroup = TRUE
 INIT Init
 NEXT Next
 CHECK_DEADLOCK FALSE
